@@ -216,7 +216,84 @@ func (c *c10Case) Run(ctx *core.Ctx) {
 		c.runMarkdown(ctx)
 	case "less":
 		c.runLess(ctx)
+	case "strings":
+		c.runStrings(ctx)
 	}
+}
+
+// c10Strings: string templates that write to the scope they are evaluated in (top-level
+// <template :x>, counters carried out of loops), call functions inside operator expressions, pipe
+// into expressions - and templates that would show what those left behind
+var c10Strings = map[string]string{
+	"bind":    `<template :greeting="'hi ' + name"></template><p>{{ greeting }}</p>`,
+	"show":    `<p>{{ greeting | default('nobody greeted') }}, {{ name }}|{{ n }}</p>`,
+	"call":    `<p>{{ upper(name) + '!' }} {{ len(l) > 1 ? 'many' : 'few' }}</p>`,
+	"names":   `<i v-if="upper">u</i><i v-else>nou</i>|{{ title }}|{{ type }}|{{ len }}|{{ default }}`,
+	"counter": `<template v-for="x in l" :n="n + 1"></template><b>{{ n }}</b>`,
+	"dot":     `<b>{{ n | . + 1 }}</b>`,
+	"piped":   `[{{ __piped__ }}]`,
+	"plain":   `<template name="Zed" extra="e"></template><u>{{ name }}{{ extra }}</u>`,
+	"extra":   `<u>{{ extra }}|{{ x }}|{{ it }}</u>`,
+	"loop":    `<i v-for="it in l">{{ it }}</i>`,
+}
+
+var c10StringNames = func() []string {
+	var ns []string
+	for k := range c10Strings {
+		ns = append(ns, k)
+	}
+	sort.Strings(ns)
+	return ns
+}()
+
+// runStrings: a history of string templates rendered on one Template object (built and given its
+// data in one of several ways); the last one renders as it does on a Template built the same way
+// that has rendered nothing else.
+func (c *c10Case) runStrings(ctx *core.Ctx) {
+	ctx.NonTrivial()
+	build := func() vuego.Template {
+		data := map[string]any{"name": "Ann", "n": 1, "l": []int{1, 2}}
+		switch c.Entry {
+		case "new-assign":
+			t := vuego.New()
+			for _, k := range []string{"l", "n", "name"} {
+				t = t.Assign(k, data[k])
+			}
+			return t
+		case "new-fill":
+			return vuego.New().Fill(data)
+		case "fs-assign":
+			t := vuego.NewFS(fstest.MapFS{})
+			for _, k := range []string{"l", "n", "name"} {
+				t = t.Assign(k, data[k])
+			}
+			return t
+		case "new-fillnil-assign":
+			return vuego.New().Fill(nil).Assign("name", "Ann").Assign("n", 1).Assign("l", []int{1, 2})
+		case "new-child":
+			return vuego.New().Fill(data).New().Assign("name", "Ann")
+		}
+		panic(c.Entry)
+	}
+	render := func(t vuego.Template, name string) string {
+		var buf bytes.Buffer
+		ctx.Eval(1)
+		err := t.RenderString(bg, &buf, c10Strings[name])
+		return res(buf.String(), err)
+	}
+	long := build()
+	for i, name := range c.Seq {
+		got := render(long, name)
+		ctx.Transition(1)
+		if i == 0 {
+			continue
+		}
+		if want := render(build(), name); got != want {
+			ctx.Violation("depends-on-earlier-renders", "string-template/"+c.Entry, name, fmt.Sprintf("template %q rendered after %v on one Template object (%s):\n got %q\nwant %q (a Template that rendered nothing before)", c10Strings[name], c.Seq[:i], c.Entry, clip(got, 300), clip(want, 300)))
+			return
+		}
+	}
+	ctx.Outcome(strings.Join(c.Seq, ">"))
 }
 
 // runLess: the CSS compiled from a LESS block is a function of the block and of the files it
@@ -607,6 +684,18 @@ func init() {
 				emit(&c10Case{Part: "clock", Prog: p.Name})
 				for _, seq := range [][]string{{"later"}, {"earlier"}, {"later", "earlier"}, {"earlier", "later"}, {"much-earlier", "earlier"}, {"later", "later"}} {
 					emit(&c10Case{Part: "files", Prog: p.Name, Seq: seq})
+				}
+			}
+			for _, entry := range []string{"new-assign", "new-fill", "fs-assign", "new-fillnil-assign", "new-child"} {
+				for _, a := range c10StringNames {
+					for _, b := range c10StringNames {
+						emit(&c10Case{Part: "strings", Seq: []string{a, b}, Entry: entry})
+						if L > 2 {
+							for _, c3 := range c10StringNames {
+								emit(&c10Case{Part: "strings", Seq: []string{a, b, c3}, Entry: entry})
+							}
+						}
+					}
 				}
 			}
 			lessEv := []string{"A:render", "B:render", "A:edit", "B:edit", "A:inline", "B:inline", "A:fresh"}
